@@ -647,11 +647,16 @@ func (c *c11Env) exec(op map[string]interface{}) (map[string]interface{}, map[st
 		if serr != nil {
 			return op, map[string]interface{}{"err": "compile"}
 		}
-		if _, done := c.waitComplete(graph, job.Id); !done {
+		// 40 MiB to spool: up to six deadlines on a loaded machine
+		done := false
+		for try := 0; try < 6 && !done; try++ {
+			_, done = c.waitComplete(graph, job.Id)
+		}
+		if !done {
 			return op, map[string]interface{}{"timeout": "complete"}
 		}
 		slow := &c11SlowStream{pause: 15 * time.Millisecond}
-		if !c11Timeout(4*c11Deadline, func() { c.srv.ViewJob(&gripql.QueryJob{Graph: graph, Id: job.Id}, slow) }) {
+		if !c11Timeout(8*c11Deadline, func() { c.srv.ViewJob(&gripql.QueryJob{Graph: graph, Id: job.Id}, slow) }) {
 			return op, map[string]interface{}{"timeout": "view"}
 		}
 		bad, seen := 0, map[string]int{}
